@@ -275,6 +275,7 @@ struct Stats {
     letchain_unfolded: usize,
     optmap_inlined: usize,
     guard_match: usize,
+    nested_lifted: usize,
 }
 
 struct OpRewriter<'a> {
@@ -627,6 +628,23 @@ impl VisitMut for RtTypeSubst {
     }
 }
 
+struct RenameCalls {
+    from: String,
+    to: String,
+    count: usize,
+}
+impl VisitMut for RenameCalls {
+    fn visit_expr_call_mut(&mut self, c: &mut syn::ExprCall) {
+        syn::visit_mut::visit_expr_call_mut(self, c);
+        if let syn::Expr::Path(p) = &mut *c.func {
+            if p.path.segments.len() == 1 && p.path.segments[0].ident == self.from.as_str() {
+                p.path.segments[0].ident = syn::Ident::new(&self.to, p.path.segments[0].ident.span());
+                self.count += 1;
+            }
+        }
+    }
+}
+
 fn is_impl_runtime(t: &syn::Type) -> bool {
     if let syn::Type::ImplTrait(it) = t {
         for b in &it.bounds {
@@ -861,6 +879,7 @@ fn emit_fn(ctx: &mut Ctx, d: &FnDir, out: &mut String) {
     let mut block = f.block.clone();
     let mut vis = f.vis.clone();
     let mut closure_of: Option<usize> = None;
+    let mut nested_of = false;
 
     // ---- closure lifting (this directive extracts the k-th transaction closure as a function)
     if let Some(k) = d.opts.get("closure") {
@@ -892,8 +911,39 @@ fn emit_fn(ctx: &mut Ctx, d: &FnDir, out: &mut String) {
         };
         vis = syn::parse_quote!(pub);
         closure_of = Some(k);
+    } else if let Some(nm) = d.opts.get("nested") {
+        // R14: this directive extracts the fn item `nm` nested in the body of the anchor function as a free function
+        let mut got = None;
+        for st in &block.stmts {
+            if let syn::Stmt::Item(syn::Item::Fn(inner)) = st {
+                if inner.sig.ident == nm.as_str() {
+                    got = Some(inner.clone());
+                }
+            }
+        }
+        let inner = got.unwrap_or_else(|| die(&format!("lost anchor: no nested fn `{}` in {}", nm, d.path)));
+        sig = inner.sig.clone();
+        block = (*inner.block).clone();
+        vis = syn::parse_quote!(pub);
+        nested_of = true;
+        if let Some(newname) = d.opts.get("as") {
+            sig.ident = syn::Ident::new(newname, sig.ident.span());
+        }
     } else if let Some(newname) = d.opts.get("as") {
         sig.ident = syn::Ident::new(newname, sig.ident.span());
+    }
+    // R14 in the parent: `lift="inner=>outer_name"` removes the nested fn item and renames its calls
+    if let Some(l) = d.opts.get("lift") {
+        let (from, to) = l.split_once("=>").unwrap_or_else(|| die("lift= expects inner=>new_name"));
+        let (from, to) = (from.trim().to_string(), to.trim().to_string());
+        let before = block.stmts.len();
+        block.stmts.retain(|st| !matches!(st, syn::Stmt::Item(syn::Item::Fn(inner)) if inner.sig.ident == from.as_str()));
+        if block.stmts.len() + 1 != before {
+            die(&format!("lost anchor: lift={} found {} nested fn items in {}", from, before - block.stmts.len(), d.path));
+        }
+        let mut rc = RenameCalls { from, to, count: 0 };
+        rc.visit_block_mut(&mut block);
+        stats.nested_lifted = rc.count;
     }
 
     strip_attrs_block(&mut block);
@@ -1064,7 +1114,7 @@ fn emit_fn(ctx: &mut Ctx, d: &FnDir, out: &mut String) {
     let (fn_ident, inputs) = (&sig.ident, &sig.inputs);
     let where_clause = &sig.generics.where_clause;
     let constness = &sig.constness;
-    let free = d.opts.contains_key("free") || closure_of.is_some();
+    let free = d.opts.contains_key("free") || closure_of.is_some() || nested_of;
     let mut impl_header = String::new();
     if !free {
         if let Some(ov) = d.opts.get("impl") {
@@ -1220,7 +1270,7 @@ fn emit_fn(ctx: &mut Ctx, d: &FnDir, out: &mut String) {
     let (nreq, nens) = count_clauses(&d.spec);
     let ninv: usize = d.loops.values().map(|s| count_clauses(&s.replace("invariant", "ensures")).1).sum();
     let rep = format!(
-        "{{\"kind\":\"fn\",\"name\":{},\"file\":{},\"item\":{},\"closure\":{},\"src_lines\":[{},{}],\"src_hash\":\"{:016x}\",\"attrs_dropped\":{},\"rewrites\":{{\"R1_binops\":{},\"R1_neg\":{},\"R2_rt_params\":{},\"R3_tx_lifted\":{},\"R5_letchains\":{},\"R6_for_desugared\":{},\"R10_optmap_inlined\":{},\"R13_guard_match\":{},\"loops\":{},\"substitutions\":[{}]}},\"clauses\":{{\"requires\":{},\"ensures\":{},\"invariants\":{}}},\"novac\":{}}}",
+        "{{\"kind\":\"fn\",\"name\":{},\"file\":{},\"item\":{},\"closure\":{},\"src_lines\":[{},{}],\"src_hash\":\"{:016x}\",\"attrs_dropped\":{},\"rewrites\":{{\"R1_binops\":{},\"R1_neg\":{},\"R2_rt_params\":{},\"R3_tx_lifted\":{},\"R5_letchains\":{},\"R6_for_desugared\":{},\"R10_optmap_inlined\":{},\"R13_guard_match\":{},\"R14_nested_fn_calls_renamed\":{},\"loops\":{},\"substitutions\":[{}]}},\"clauses\":{{\"requires\":{},\"ensures\":{},\"invariants\":{}}},\"novac\":{}}}",
         json_str(&qual),
         json_str(&d.file),
         json_str(&d.path),
@@ -1237,6 +1287,7 @@ fn emit_fn(ctx: &mut Ctx, d: &FnDir, out: &mut String) {
         stats.for_desugared,
         stats.optmap_inlined,
         stats.guard_match,
+        stats.nested_lifted,
         stats.loops,
         subs_done.iter().map(|s| json_str(s)).collect::<Vec<_>>().join(","),
         nreq,
